@@ -5,6 +5,7 @@ import (
 	"go/ast"
 	"go/token"
 	"go/types"
+	"sort"
 	"strings"
 
 	"siotcheck/kit"
@@ -100,44 +101,117 @@ func c06GoVersion(f *kit.Func) (minor int, shown string, ok bool) {
 	return minor, "go" + strings.TrimPrefix(v, "go"), true
 }
 
-// c06LoopVars: the variables a loop over the parents declares or assigns per
-// iteration; fresh = the loop declares them itself (`:=`), so that from Go 1.22
-// on every iteration has its own.
-func c06LoopVars(info *types.Info, loop *ast.RangeStmt) (vars map[types.Object]bool, declared bool) {
-	vars = map[types.Object]bool{}
+// c06LoopVars: the variables that change from one iteration of loop to the
+// next: its key/value variables (value true = declared by the loop with `:=`, so
+// that from Go 1.22 on every iteration has its own), and variables declared
+// outside the loop body that the body assigns (one variable in every version).
+func c06LoopVars(info *types.Info, loop *ast.RangeStmt) map[types.Object]bool {
+	vars := map[types.Object]bool{}
 	for _, e := range []ast.Expr{loop.Key, loop.Value} {
 		if e == nil {
 			continue
 		}
 		if o := kit.ObjOf(info, e); o != nil && o.Name() != "_" {
-			vars[o] = true
+			vars[o] = loop.Tok == token.DEFINE
 		}
 	}
-	return vars, loop.Tok == token.DEFINE
-}
-
-// c06Captured: the loop variables a literal's body reads (by object, so a
-// parameter of the literal or a per-iteration copy of the same name does not count).
-func c06Captured(info *types.Info, lit *ast.FuncLit, vars map[types.Object]bool) []string {
-	var out []string
-	seen := map[types.Object]bool{}
-	ast.Inspect(lit.Body, func(n ast.Node) bool {
-		if id, ok := n.(*ast.Ident); ok {
-			if o := info.Uses[id]; o != nil && vars[o] && !seen[o] {
-				seen[o] = true
-				out = append(out, o.Name())
+	outer := func(e ast.Expr) {
+		id, ok := ast.Unparen(e).(*ast.Ident)
+		if !ok {
+			return
+		}
+		v, ok := info.Uses[id].(*types.Var)
+		if !ok || v.IsField() || (loop.Body.Pos() <= v.Pos() && v.Pos() <= loop.Body.End()) {
+			return
+		}
+		if _, isLoopVar := vars[v]; !isLoopVar {
+			vars[v] = false
+		}
+	}
+	ast.Inspect(loop.Body, func(n ast.Node) bool {
+		switch x := n.(type) {
+		case *ast.AssignStmt:
+			for _, l := range x.Lhs {
+				outer(l)
 			}
+		case *ast.IncDecStmt:
+			outer(x.X)
 		}
 		return true
 	})
+	return vars
+}
+
+// c06ArgReads: the variables from outside lit that the value of e (an expression
+// in lit's body) is computed from: locals of the literal are followed to what
+// they are assigned, parameters of the literal are not (their arguments are
+// evaluated when the literal is called or started).
+func c06ArgReads(info *types.Info, lit *ast.FuncLit, e ast.Expr) map[types.Object]bool {
+	out := map[types.Object]bool{}
+	done := map[types.Object]bool{}
+	var visit func(e ast.Node)
+	visit = func(e ast.Node) {
+		ast.Inspect(e, func(n ast.Node) bool {
+			id, ok := n.(*ast.Ident)
+			if !ok {
+				return true
+			}
+			v, ok := info.Uses[id].(*types.Var)
+			if !ok || v.IsField() || done[v] {
+				return true
+			}
+			done[v] = true
+			if !(lit.Pos() <= v.Pos() && v.Pos() <= lit.End()) {
+				out[v] = true
+				return true
+			}
+			if v.Pos() < lit.Body.Pos() {
+				return true // parameter of the literal
+			}
+			ast.Inspect(lit.Body, func(m ast.Node) bool {
+				switch as := m.(type) {
+				case *ast.AssignStmt:
+					for i, l := range as.Lhs {
+						if kit.ObjOf(info, l) != types.Object(v) {
+							continue
+						}
+						if len(as.Lhs) == len(as.Rhs) {
+							visit(as.Rhs[i])
+						} else {
+							for _, r := range as.Rhs {
+								visit(r)
+							}
+						}
+					}
+				case *ast.ValueSpec:
+					for _, nm := range as.Names {
+						if info.Defs[nm] == types.Object(v) {
+							for _, r := range as.Values {
+								visit(r)
+							}
+						}
+					}
+				case *ast.RangeStmt:
+					if (as.Key != nil && kit.ObjOf(info, as.Key) == types.Object(v)) || (as.Value != nil && kit.ObjOf(info, as.Value) == types.Object(v)) {
+						visit(as.X)
+					}
+				}
+				return true
+			})
+			return true
+		})
+	}
+	visit(e)
 	return out
 }
 
 // c06PerIteration decides the obligation "each iteration's recursion uses that
-// iteration's parent" for the recursion sites inside loop.
-func c06PerIteration(f *kit.Func, o *kit.Ob, loop *ast.RangeStmt, sites []*c06RecSite) {
+// iteration's parent" for the recursion sites inside loop.  ancIdx is the
+// position of the ancestor among the walker's parameters; outlive = a goroutine
+// started in an iteration may still run when the next iteration begins.
+func c06PerIteration(f *kit.Func, o *kit.Ob, loop *ast.RangeStmt, sites []*c06RecSite, ancIdx int, outlive bool) {
 	info := f.Info()
-	vars, declared := c06LoopVars(info, loop)
+	vars := c06LoopVars(info, loop)
 	minor, shown, vok := c06GoVersion(f)
 	viol, undec, okBy := "", "", "the recursive call is a statement of the loop body"
 	for _, s := range sites {
@@ -145,26 +219,41 @@ func c06PerIteration(f *kit.Func, o *kit.Ob, loop *ast.RangeStmt, sites []*c06Re
 			if l.how == "call" || !(loop.Body.Pos() <= l.lit.Pos() && l.lit.End() <= loop.Body.End()) {
 				continue
 			}
-			capt := c06Captured(info, l.lit, vars)
-			switch {
-			case len(capt) == 0:
-				okBy = "the function literal at " + f.At(l.lit) + " reads no loop variable (the parent is passed as an argument or copied per iteration)"
-			case !vok:
-				undec = "language version of " + f.Prog.Pos(f.File.Pos()) + " not known (`" + shown + "`)"
-			case declared && minor >= 22:
-				okBy = shown + ": every iteration has its own `" + strings.Join(capt, "`, `") + "`"
-			case l.how == "go":
-				viol = fmt.Sprintf("the function literal started with `go` at %s reads the loop variable `%s`; with %s (before Go 1.22) that is one variable for all iterations: all goroutines started by the loop read the same variable; they walk the last parent only",
-					f.At(l.stmt), strings.Join(capt, "`, `"), shown)
-				if !declared {
-					viol = fmt.Sprintf("the function literal started with `go` at %s reads `%s`, which the loop assigns but does not declare: all goroutines started by the loop read the same variable; they walk the last parent only",
-						f.At(l.stmt), strings.Join(capt, "`, `"))
+			// what the parent handed to the recursion is computed from, seen from outside the literal
+			var perIter, always []string
+			if ancIdx >= 0 && ancIdx < len(s.call.Args) {
+				for v := range c06ArgReads(info, l.lit, s.call.Args[ancIdx]) {
+					if declared, changes := vars[v]; changes && declared {
+						perIter = append(perIter, v.Name())
+					} else if changes {
+						always = append(always, v.Name())
+					}
 				}
+			}
+			sort.Strings(perIter)
+			sort.Strings(always)
+			capt := "`" + strings.Join(append(append([]string{}, always...), perIter...), "`, `") + "`"
+			why := "with " + shown + " (before Go 1.22) that is one variable for all iterations"
+			if len(always) > 0 {
+				why = "`" + strings.Join(always, "`, `") + "` is declared outside the loop, one variable for all iterations"
+			}
+			switch {
+			case len(perIter)+len(always) == 0:
+				okBy = "the parent the function literal at " + f.At(l.lit) + " recurses with does not come from a loop variable it captured (it is passed as an argument or copied per iteration)"
+			case l.how == "go" && !outlive:
+				okBy = "the goroutine started at " + f.At(l.stmt) + " is waited for before the next iteration begins"
+			case len(always) == 0 && !vok:
+				undec = "language version of " + f.Prog.Pos(f.File.Pos()) + " not known (`" + shown + "`)"
+			case len(always) == 0 && minor >= 22:
+				okBy = shown + ": every iteration has its own " + capt
+			case l.how == "go":
+				viol = fmt.Sprintf("the function literal started with `go` at %s recurses with a parent read from the loop variable %s; %s: all goroutines started by the loop read the same variable; they walk the last parent only",
+					f.At(l.stmt), capt, why)
 			case l.how == "defer":
-				viol = fmt.Sprintf("the deferred function literal at %s reads the loop variable `%s`, one variable for all iterations (%s): when the deferred calls run they all walk the last parent",
-					f.At(l.stmt), strings.Join(capt, "`, `"), shown)
+				viol = fmt.Sprintf("the deferred function literal at %s recurses with a parent read from the loop variable %s; %s: when the deferred calls run they all walk the last parent",
+					f.At(l.stmt), capt, why)
 			default:
-				undec = "the function literal at " + f.At(l.lit) + " reads the loop variable `" + strings.Join(capt, "`, `") + "` (shared by all iterations, " + shown + ") and is stored or handed on; when it runs is not followed"
+				undec = "the function literal at " + f.At(l.lit) + " recurses with a parent read from the loop variable " + capt + " (" + why + ") and is stored or handed on; when it runs is not followed"
 			}
 			break // the outermost literal that is not run in place decides
 		}
